@@ -73,6 +73,10 @@ func init() {
 	c20Big = []string{
 		"echo $BIG_ONE SC2086\n" + pad + "echo end of the first big script SC2116\n",
 		"echo $BIG_TWO SC2086\n" + pad + "echo end of the second big script SC2005\n",
+		// about 80 KiB: more than a pipe holds, so whoever feeds the tool's stdin must not wait for it
+		// to be taken before the tool runs (long generated scripts - embedded installers, heredocs -
+		// are legal input; the property speaks of every run: script)
+		"echo $BIG_THREE ${{ github.sha }} SC2086\n" + strings.Repeat(pad, 4) + "echo end of the script that is larger than a pipe SC2116\n",
 	}
 }
 
